@@ -5,7 +5,7 @@ import time
 
 from hypothesis import HealthCheck, Phase, given, seed as hseed, settings, strategies as st
 
-from vf import env, progcheck, known_shapes, trace
+from vf import env, hyp, progcheck, known_shapes, trace
 from vf.acc import Acc
 from vf.gen import families, programs
 
@@ -68,13 +68,7 @@ def run_shard(spec):
     else:
         strat = programs.programs().map(lambda s: ("grammar", s))
 
-    @hseed(spec["seed"])
-    @settings(max_examples=spec["n"], database=None, deadline=None, phases=[Phase.generate], suppress_health_check=list(HealthCheck))
-    @given(st.data())
     def go(data):
-        if time.time() - t0 > spec["budget_s"]:
-            acc.budget_exhausted = True
-            return
         label, src = data.draw(strat)
         src, excluded = known_shapes.neutralise(src)
         for fid in excluded:
@@ -99,7 +93,7 @@ def run_shard(spec):
                      sample={"rule": key, "src": src})
             acc.fails(fails)
 
-    go()
+    hyp.run(st.data(), go, spec["n"], spec["seed"], spec["budget_s"], acc, chunk=30)
     acc.extra["rule_fire_counts"] = fired
     acc.extra["rule_crash_counts"] = crashed
     return acc
